@@ -47,7 +47,7 @@ var argDefault = map[string]int64{"Query.arg": 7, "Query.targ": 6}
 
 // Variable modes for operations that use $v.
 const (
-	VarGiven   = iota // query($v: Int)      variables {"v": 2}
+	VarGiven   = iota // query($v: Int)      variables {"v": 2}   (histories also send {"v": 9})
 	VarDefault        // query($v: Int = 4)  variables {}
 	VarAbsent         // query($v: Int)      variables {}        -> field default 7
 	VarNull           // query($v: Int)      variables {"v": null}
@@ -69,6 +69,14 @@ type Op struct {
 	Root    string  `json:"root"` // "query" | "mutation"
 	Sels    []*Node `json:"sels"`
 	VarMode int     `json:"varmode"`
+	VarVal  int     `json:"varval,omitempty"` // value of $v in mode VarGiven; 0 means 2
+}
+
+func (op *Op) varVal() int {
+	if op.VarVal != 0 {
+		return op.VarVal
+	}
+	return 2
 }
 
 // ---- hand-written table of the probe schema (checked against es.Schema() at start-up) ----
@@ -347,7 +355,7 @@ func (op *Op) Vars() map[string]any {
 	switch op.VarMode {
 	case VarGiven:
 		if op.usesVar() {
-			return map[string]any{"v": 2}
+			return map[string]any{"v": op.varVal()}
 		}
 	case VarNull:
 		return map[string]any{"v": nil}
